@@ -135,6 +135,8 @@ def is_local(x, names, floor) -> bool:
             return x[2] > floor.get(x[1], 0)
         if len(x) == 2 and x[0] in ("ref", "dict") and isinstance(x[1], int):
             return x[1] > floor.get("oid", 0)
+        if len(x) == 3 and x[0] == "carried" and isinstance(x[1], int):
+            return x[1] > floor.get("loop", 0)
         if len(x) == 2 and x[0] == "var" and isinstance(x[1], str):
             digits = "".join(ch for ch in x[1] if ch.isdigit())
             return bool(digits) and int(digits) > floor.get("var", 0)
@@ -242,6 +244,7 @@ class Interp:
         self.no_inline: set[str] = set()
         self.method_hooks: dict = {}  # (role, method name) -> handler(interp, elem, args, kwargs, node)
         self._carried: dict = {}
+        self._carried_containers: dict = {}
         self.path_count = 0
         self.stats = {"paths": 0, "functions": set(), "unresolved_calls": 0, "resolved_calls": 0, "loops": 0}
 
@@ -1332,6 +1335,14 @@ class Interp:
                     if isinstance(cur, (Const, LinV, Sym, PredV)) and not (isinstance(cur, Const) and isinstance(cur.value, str)):
                         hint = "int" if isinstance(cur, LinV) or (isinstance(cur, Const) and isinstance(cur.value, int) and not isinstance(cur.value, bool)) else (cur.hint if isinstance(cur, Sym) else "")
                         env[name] = Sym(("carried", loop_id, name), hint)
+                for name in self._carried_containers.get(id(node), ()):
+                    cur = st.frames[-1].env.get(name)
+                    if isinstance(cur, Ref) and cur.oid in st.heap:
+                        o = st.heap[cur.oid]
+                        if isinstance(o, HDict) and not o.sym:
+                            o.sym = ("carried", loop_id, name)
+                        elif isinstance(o, HList) and not any(sg[0] == "sym" for sg in o.segs):
+                            o.segs = [("sym", ("carried", loop_id, name))] + o.segs
                 elem = self.inst(template, {binder: evar})
                 self.assign(target, elem)
                 body()
@@ -1429,6 +1440,22 @@ class Interp:
                         assigned.add(n.id)
                     elif isinstance(n.ctx, ast.Load):
                         loaded.add(n.id)
+        # containers that the body both updates and consults: their content after earlier iterations is unknown
+        mutated, consulted = set(), set()
+        for st in node.body:
+            for n in ast.walk(st):
+                if isinstance(n, ast.Subscript) and isinstance(n.value, ast.Name):
+                    (mutated if isinstance(n.ctx, ast.Store) else consulted).add(n.value.id)
+                elif isinstance(n, ast.Call) and isinstance(n.func, ast.Attribute) and isinstance(n.func.value, ast.Name):
+                    if n.func.attr in ("append", "add", "update", "setdefault", "pop", "extend", "insert", "remove", "discard"):
+                        mutated.add(n.func.value.id)
+                    elif n.func.attr in ("get", "keys", "values", "items", "index", "count"):
+                        consulted.add(n.func.value.id)
+                elif isinstance(n, ast.Compare) and any(isinstance(o, (ast.In, ast.NotIn)) for o in n.ops):
+                    for c in n.comparators:
+                        if isinstance(c, ast.Name):
+                            consulted.add(c.id)
+        self._carried_containers[id(node)] = (mutated & consulted) - targets
         return (aug | (assigned & loaded)) - targets
 
     # ------------------------------------------------------------------ assignment
